@@ -191,19 +191,21 @@ Definition halfturn_w (Rm : M33 T) : V3 T :=
 (* general branch (84bd1d7): skw = (R - R.T)/2 ; st = norm(vex(skw)) ; theta = atan2(st, (tr - 1)/2) ; skw / st * theta *)
 Definition log_general (Rm : M33 T) : M33 T :=
   mscale33r (mdiv33 (skewpart Rm) (log_st Rm)) (log_theta Rm).
+(* fix 5f912b1: `if st == 0:` the general branch returns zeros (no skew part: R differs from I by a symmetric residue) *)
+Definition st_is_zero (Rm : M33 T) : bool := eqb O (log_st Rm) 0.
 
 (* trlog(R, twist=False) and trlog(R, twist=True) for a 3x3 argument *)
 Definition trlog_so3_mat (Rm : M33 T) : M33 T :=
   match trlog_so3_branch Rm with
   | BrEye => Z33 O
   | BrHalf => skew3 O (halfturn_w Rm)
-  | BrGen => log_general Rm
+  | BrGen => if st_is_zero Rm then Z33 O else log_general Rm
   end.
 Definition trlog_so3_tw (Rm : M33 T) : V3 T :=
   match trlog_so3_branch Rm with
   | BrEye => (0,0,0)
   | BrHalf => halfturn_w Rm
-  | BrGen => vex3 O (log_general Rm)
+  | BrGen => if st_is_zero Rm then (0,0,0) else vex3 O (log_general Rm)
   end.
 
 (* Ginv = eye - S/2 + (1/theta - 1/tan(theta/2)/2)/theta * S @ S      (`*` and `@` associate to the left) *)
@@ -224,7 +226,8 @@ Definition trlog_se3_tw (Tm : M44 T) : V6 T :=
       let S := trlog_so3_mat (t2r3 Tm) in
       let w := vex3 O S in
       let th := norm3 O w in
-      v6 (mv33 O (Ginv S th) (transl3 Tm)) w
+      (* fix 5f912b1: `if theta == 0: v = t` *)
+      v6 (if eqb O th 0 then transl3 Tm else mv33 O (Ginv S th) (transl3 Tm)) w
   end.
 (* trlog(T, twist=False): Ab2M(S, v) *)
 Definition Ab2M (S : M33 T) (v : V3 T) : M44 T :=
@@ -237,7 +240,7 @@ Definition trlog_se3_mat (Tm : M44 T) : M44 T :=
   | BrRot =>
       let S := trlog_so3_mat (t2r3 Tm) in
       let th := norm3 O (vex3 O S) in
-      Ab2M S (mv33 O (Ginv S th) (transl3 Tm))
+      Ab2M S (if eqb O th 0 then transl3 Tm else mv33 O (Ginv S th) (transl3 Tm))
   end.
 
 (* ---------------- transforms2d.trexp2 ---------------- *)
@@ -276,5 +279,5 @@ Create HintDb c03 discriminated.
   isunittwist2 unitvec_norm3 unitvec_norm1 unittwist_norm unittwist2_norm fro33 fro44 msub44 iseye33 iseye44 skew1
   madd22 mscale22 rodrigues_cs rodrigues_th rodrigues1_cs rodrigues1_th rodrigues3 rodrigues3_with rodrigues1
   rodrigues1_with trexp_so3 trexp_so3_th Vmat_cs Vmat trexp_unit trexp_se3 trexp_se3_th argmax3 diag_k e_k
-  trlog_so3_branch skewpart log_li log_c log_st sympart_minus halfturn_axis halfturn_w mdiv33 mscale33r log_theta log_general iseye22 trlog2_theta trlog2_so2 trlog2_se2_tw trlog_so3_mat trlog_so3_tw Ginv
+  trlog_so3_branch skewpart log_li log_c log_st sympart_minus halfturn_axis halfturn_w mdiv33 mscale33r log_theta log_general st_is_zero iseye22 trlog2_theta trlog2_so2 trlog2_se2_tw trlog_so3_mat trlog_so3_tw Ginv
   trlog_se3_branch trlog_se3_tw Ab2M trlog_se3_mat trexp2_so2 Vmat2 trexp2_unit trexp2_se2 trexp2_se2_th : c03.
